@@ -958,6 +958,16 @@ class Interp:
         return None
 
     def iterate(self, v, node=None):
+        if isinstance(v, Obj) and v.cls == "iterator":
+            # an explicit iterator object (iter(x)): consumed one element at a time, so that a loop left by `break` and
+            # entered again goes on where it stopped
+            def gen(it=v):
+                items = it.fields["items"].elts
+                while it.fields["pos"].v < len(items):
+                    i = it.fields["pos"].v
+                    it.fields["pos"] = Const(i + 1)
+                    yield items[i]
+            return gen()
         if isinstance(v, (ListLit, TupS, SetS)):
             return list(v.elts)
         if isinstance(v, DictS):
